@@ -29,13 +29,13 @@ type RefIn struct {
 	V [3]string `json:"v"`
 }
 type LogIn struct {
-	N     string `json:"n"`
-	I     uint64 `json:"i"`
-	Old   string `json:"old"`
-	New   string `json:"new"`
-	User  string `json:"user"`
-	Time  uint64 `json:"time"`
-	Msg   string `json:"msg"`
+	N    string `json:"n"`
+	I    uint64 `json:"i"`
+	Old  string `json:"old"`
+	New  string `json:"new"`
+	User string `json:"user"`
+	Time uint64 `json:"time"`
+	Msg  string `json:"msg"`
 }
 type Tab struct {
 	Min  uint64  `json:"min"`
